@@ -174,7 +174,19 @@ func genResOf(r *Rng, st stype, o *Out) jsonapi.Resource {
 	if st.backed {
 		res = newWrapped(typ)
 	} else {
-		res = newSoft(typ)
+		sr := newSoftVia(r, typ, o)
+		res = sr
+		if r.chance(1, 3) {
+			// only some of the fields are ever set: the others hold their zero value
+			o.stat("res.soft-partly-set")
+			sr.SetID(id)
+			for _, k := range sortedKeys(vals) {
+				if r.bool() {
+					sr.Set(k, cloneVal(vals[k]))
+				}
+			}
+			return res
+		}
 	}
 	fill(res, id, vals)
 	return res
